@@ -73,6 +73,21 @@ def generate(rng, tier, shard, nshards):
                    'q': {'kind': 'bbox', 'form': rng.choice(['1d', '2d']), 'shape': None, 'dtype': 'float64', 'n': rng.randint(2 ** 18 + 1, 700000),
                          'rs': rng.randrange(2 ** 31)}}
             continue
+        if i % 40 == 31:
+            # needles: axis ratios of 1e5 .. 1e9 within the size domain (1e-3 .. 1e6 px), at oblique angles, asked along their long axis
+            cls = rng.choice(['EllipsePixelRegion', 'EllipsePixelRegion', 'RectanglePixelRegion', 'EllipseAnnulusPixelRegion'])
+            Lmaj = gen.logu(rng, 1e3, 1e6)
+            ratio = gen.logu(rng, 1e5, min(1e9, Lmaj / 1e-3))
+            w, h = (Lmaj, Lmaj / ratio) if rng.random() < 0.5 else (Lmaj / ratio, Lmaj)
+            c = S.pix(rng.uniform(-100, 100), rng.uniform(-100, 100))
+            ang = S.q(rng.uniform(-180, 180), 'deg')
+            if cls == 'EllipseAnnulusPixelRegion':
+                reg = S.reg(cls, meta=gen.meta_with_include(rng), center=c, inner_width=0.5 * w, outer_width=w, inner_height=0.5 * h, outer_height=h, angle=ang)
+            else:
+                reg = S.reg(cls, meta=gen.meta_with_include(rng), center=c, width=w, height=h, angle=ang)
+            yield {'lane': 'needle', 'region': reg, 'history': 0,
+                   'q': {'kind': 'axis', 'form': '1d', 'shape': None, 'dtype': 'float64', 'n': 200, 'rs': rng.randrange(2 ** 31)}}
+            continue
         if i % 40 == 11:
             # sibling isolation: regions built WITHOUT meta/visual, one of them edited in place, then more built
             a = gen.pixel_region_spec(rng)
@@ -162,6 +177,17 @@ def make_queries(region, q):
         x, y = cx + mags * np.cos(ang), cy + mags * np.sin(ang)
         k = n // 3
         x[:k], y[:k] = cx + nrng.uniform(-1.5, 1.5, k) * q['r'], cy + nrng.uniform(-1.5, 1.5, k) * q['r']
+    elif kind == 'axis':
+        # along the long axis of an elongated shape, within a few semi-minor axes of it
+        w_ = float(getattr(region, 'width', getattr(region, 'outer_width', 1.0)))
+        h_ = float(getattr(region, 'height', getattr(region, 'outer_height', 1.0)))
+        th_ = geom.theta_rad(region.angle)
+        x0_, y0_ = float(region.center.x), float(region.center.y)
+        a_, b_, th_ = (w_ / 2, h_ / 2, th_) if w_ >= h_ else (h_ / 2, w_ / 2, th_ + math.pi / 2)
+        t = nrng.uniform(-1.2, 1.2, n) * a_
+        sdev = nrng.uniform(-3, 3, n) * b_
+        x = x0_ + t * math.cos(th_) - sdev * math.sin(th_)
+        y = y0_ + t * math.sin(th_) + sdev * math.cos(th_)
     elif kind == 'bbox':
         x, y = bbox_pts(n)
     elif kind == 'boundary':
